@@ -4,6 +4,7 @@ package main
 // not follow. Every intrinsic that is actually hit is listed in the evidence.
 
 import (
+	"encoding/base64"
 	"fmt"
 	"go/types"
 	"sort"
@@ -525,6 +526,42 @@ func (e *Engine) registerIntrinsics() {
 		in[retryPkg+"."+n] = func(c *PathCtx, fr *frame, args []Value) Value { return (*ssa.Function)(nil) }
 	}
 
+	// ---------------- protobuf ----------------
+	// proto.Clone: deep copy of the message object graph (documented contract)
+	for _, k := range []string{"google.golang.org/protobuf/proto.Clone", "github.com/golang/protobuf/proto.Clone", "github.com/milvus-io/milvus/pkg/util/typeutil.Clone"} {
+		in[k] = func(c *PathCtx, fr *frame, args []Value) Value {
+			return deepCopy(args[0], map[*Value]*Value{})
+		}
+	}
+	// encoding/base64 on concrete data only
+	in["(*encoding/base64.Encoding).DecodeString"] = func(c *PathCtx, fr *frame, args []Value) Value {
+		st := args[1].(*Term)
+		if !st.Const {
+			panic(inconclusive("base64 decode of symbolic string"))
+		}
+		b, err := base64.StdEncoding.DecodeString(st.S)
+		if err != nil {
+			return Tuple{[]Value(nil), c.newError(mkStr("illegal base64 data"), nil)}
+		}
+		out := make([]Value, len(b))
+		for i := range b {
+			out[i] = mkBV(8, uint64(b[i]))
+		}
+		return Tuple{out, Iface{}}
+	}
+	in["(*encoding/base64.Encoding).EncodeToString"] = func(c *PathCtx, fr *frame, args []Value) Value {
+		sl := args[1].([]Value)
+		b := make([]byte, len(sl))
+		for i, e := range sl {
+			et := e.(*Term)
+			if !et.Const {
+				panic(inconclusive("base64 encode of symbolic bytes"))
+			}
+			b[i] = byte(et.U)
+		}
+		return mkStr(base64.StdEncoding.EncodeToString(b))
+	}
+
 	// ---------------- misc ----------------
 	in["runtime.Gosched"] = func(c *PathCtx, fr *frame, args []Value) Value { c.yield(false); return nil }
 	in["os.Getenv"] = func(c *PathCtx, fr *frame, args []Value) Value { return mkStr("") }
@@ -758,3 +795,55 @@ func (e *Engine) errorStringPtrType() types.Type {
 
 var _ = sort.Strings
 var _ *ssa.Function
+
+// deepCopy copies a value graph: pointers, slices, maps and aggregates are
+// duplicated (sharing and cycles preserved through memo); scalars are immutable.
+func deepCopy(v Value, memo map[*Value]*Value) Value {
+	switch v := v.(type) {
+	case *Value:
+		if v == nil {
+			return v
+		}
+		if n, ok := memo[v]; ok {
+			return n
+		}
+		n := new(Value)
+		memo[v] = n
+		*n = deepCopy(*v, memo)
+		return n
+	case Struct:
+		n := make(Struct, len(v))
+		for i := range v {
+			n[i] = deepCopy(v[i], memo)
+		}
+		return n
+	case Array:
+		n := make(Array, len(v))
+		for i := range v {
+			n[i] = deepCopy(v[i], memo)
+		}
+		return n
+	case []Value:
+		if v == nil {
+			return v
+		}
+		n := make([]Value, len(v), cap(v))
+		for i := range v {
+			n[i] = deepCopy(v[i], memo)
+		}
+		return n
+	case Iface:
+		return Iface{T: v.T, V: deepCopy(v.V, memo)}
+	case *Map:
+		if v == nil {
+			return v
+		}
+		n := &Map{kt: v.kt, vt: v.vt}
+		for i := range v.keys {
+			n.keys = append(n.keys, deepCopy(v.keys[i], memo))
+			n.vals = append(n.vals, deepCopy(v.vals[i], memo))
+		}
+		return n
+	}
+	return v
+}
